@@ -88,7 +88,7 @@ func (w *WideQ) opts() Opts { return Opts{Wrapped: w.Wrapped} }
 
 var wideConstructs = []string{"filter", "case", "in-list", "between", "fn-args", "group", "group-having", "group-by-expr", "whole-agg", "join", "left-join", "parallel-join",
 	"hash-join", "cte", "cte-twice", "derived", "sel-sub", "sel-sub-root", "in-sub", "exists", "not-exists", "union", "union-all", "order-limit", "distinct", "nested-from", "star-sub", "like-is", "join-derived", "cte-join", "in-sub-root", "exists-outer", "having-agg",
-	"derived-cte", "join-derived-cte", "in-sub-cte", "sel-sub-cte", "exists-cte", "cte-union", "cte-nested"}
+	"join-on-fn", "join-on-fn", "derived-cte", "join-derived-cte", "in-sub-cte", "sel-sub-cte", "exists-cte", "cte-union", "cte-nested"}
 
 func genWide(t *rapid.T, only []string) *WideQ {
 	doc, sc := genC07Doc(t)
@@ -208,6 +208,11 @@ func genWideOn(t *rapid.T, doc map[string]any, sc *c07Schema, only []string) *Wi
 		w.Tpl = fmt.Sprintf("SELECT %s, %s FROM {T} WHERE EXISTS (SELECT %s FROM %s WHERE %s %s {F@exists-outer-column:%s})", k, s, p, items, p, op("eop"), k)
 	case "having-agg":
 		w.Tpl = fmt.Sprintf("SELECT %s, SUM(%s) AS sv FROM {T}%s GROUP BY %s HAVING {F@having-aggregate:SUM(%s)} %s %s", k, v, optWhere("w", ""), k, v, op("hop"), num("hc"))
+		w.Unordered = true
+	case "join-on-fn":
+		// a boolean-valued call as a conjunct of ON (the only place where ON accepts a function)
+		w.Tpl = fmt.Sprintf("SELECT * FROM {T} x %s {T2} y ON x.%s %s y.%s AND {F@join-on-conjunct:TRUE}%s", rapid.SampledFrom([]string{"JOIN", "LEFT JOIN", "RIGHT JOIN", "PARALLEL JOIN", "PARALLEL LEFT JOIN", "INNER JOIN"}).Draw(t, "kw"),
+			k, rapid.SampledFrom([]string{"!=", "<", ">=", "<>", "="}).Draw(t, "jop"), c2, optWhere("w", "x."))
 		w.Unordered = true
 	case "derived-cte":
 		w.Tpl = fmt.Sprintf("SELECT x.%s, x.w FROM (WITH c AS (SELECT %s, {F@cte-in-derived-table:%s} AS w FROM {T}%s) SELECT * FROM c) x", k, k, v, optWhere("w", ""))
